@@ -62,6 +62,14 @@ def add_noise(e: ESpec):
         # non-string doc attributes must not disturb attribute collection
         if r & 8:
             e.extra.setdefault('variant_attrs', {}).setdefault(v.ident, []).append(['#[doc(hidden)]', '#[doc(alias = "noise")]'][k % 2])
+    if 'eattr_layout' not in e.extra:
+        e.extra['eattr_layout'] = ['one', 'split', 'rev', 'revsplit'][(h >> 48) % 4]
+    # attributes of other tools on the enum and on variants
+    if (h >> 52) & 1:
+        e.extra['enum_attrs'] = list(e.extra.get('enum_attrs', [])) + ['#[allow(dead_code)]', '#[cfg_attr(all(), non_exhaustive)]'][: 1 + ((h >> 53) & 1)]
+    for k, v in enumerate(e.variants):
+        if (h >> (56 + k % 8)) & 1:
+            e.extra.setdefault('variant_attrs', {}).setdefault(v.ident, []).append(['#[allow(dead_code)]', '#[cfg(all())]', '#[cfg_attr(all(), allow(unused))]'][(k + h) % 3])
     # the enum's own visibility is copied to generated items and decides nothing else
     if 'vis' not in e.extra:
         e.extra['vis'] = ['pub', 'pub(crate)', 'pub(super)', 'pub(in crate)'][(h >> 44) % 4]
